@@ -24,6 +24,7 @@ META["explanation"] += " Poll functions that build Pending without polling anyth
 META["explanation"] += ' Shared with C08: R08.2 / R08.4 (one long-lived Sender that is never cloned, moved out or kept from being dropped - mem::forget / ptr::read around the vector leave the channel open and parked streams are never woken). Termination memories (see C09 R09.18) are understood by the typestate.'
 META["explanation"] += " R14.2 plumbing-forwards-the-context: the future wrappers excluded from the typestate poll the wrapped future with the caller's context itself (not one rebuilt around a remembered waker)."
 META["explanation"] += ' R14.5 a vector subscriber stream does not answer Pending while one of its fields holds diffs already taken out of the channel.'
+META["explanation"] += ' R14.6 a poll function that answers Ready on the strength of a flag of its own alone does not set that flag and then answer Pending in the same invocation.'
 
 
 def run(ctx):
@@ -55,6 +56,7 @@ def run(ctx):
         n += 1
         wakers.check_poll_fn(ctx, "R14.1", f, sites)
         wakers.check_rearm(ctx, "R14.3", f, sites)
+        wakers.check_flag_then_pending(ctx, "R14.6", f)
     floor = 2 + (6 if UT in have else 0) + (2 if (EY in have and ctx.has_async) else 0)
     ctx.floor("R14.1", n, floor)
     r14_5(ctx)
